@@ -193,7 +193,11 @@ def run_case(case, ctx):
             if a < 0:
                 ctx.count("entries_with_an_access_time_in_the_future")
             target = os.path.join(p, "output.pkl") if p in dirs else p
-            os.utime(target, (now - a, now - a))
+            # the access time of a zero-size entry is its DIRECTORY's: on a relatime mount every listing of a directory
+            # whose atime is not later than its mtime moves the atime to the current time - with a time ahead of the
+            # clock that would happen at every scan (the inventory's, then joblib's, in their own walk orders), so such
+            # directories get an old modification time (false alarm 'not-lru-prefix' of one case in 2 400 on a loaded machine)
+            os.utime(target, (now - a, now - a if p in dirs else min(now - a, now) - 10 ** 6))
         # fractional age limits: one entry is placed 0.45 s past a whole number of seconds A and the age limit is
         # A + 0.9 s (the entry must survive) or A + 0.1 s (it must go); everything else stays >= 60 s away
         frac = None
